@@ -4,10 +4,20 @@ M8 — model of the cell templating step
 the `omit_templating` path of `SheetParser.parse_next_row`, sheetparser.py 41-49).
 
 A mini template language that the harness generators emit in Jinja syntax (`Tmpl.show`),
-its evaluation under the two `undefined` policies of Jinja (`strict` = `StrictUndefined`,
-what the repo configures; `lenient` = Jinja's default `Undefined`, what it configured before
-the fix), and the wrapper around it (strip, the `context is None` / no-`{` shortcut, native
-`{@ … @}` detection, the nested-`{@` check, the `isinstance(result, Undefined)` check).
+its evaluation under the `undefined` policies of Jinja (`strict` = the repo's subclass of
+`StrictUndefined` whose `repr()` fails too; `strictShallow` = plain `StrictUndefined`, what the
+repo configured before the fix of F-C16-c: `str()` fails, `repr()` does not; `lenient` = Jinja's
+default `Undefined`, what it configured before the fix of F-C16-a), and the wrapper around it
+(strip, the `context is None` / no-`{` shortcut, native `{@ … @}` detection, the nested-`{@`
+check, the search of the native result for an `Undefined` object — at top level only before
+the fix of F-C16-c, through nested lists / tuples / dicts after it).
+
+Expressions (`Expr`): references, `p|default('d')`, and list / tuple / dict literals and
+`dict(k=…)` calls over them, nested to any depth; printed by `{{ e }}`, concatenated by
+`{{ e ~ f }}`, returned by `{@ e @}`.  An undefined reference stored in a container is an
+`Undefined` OBJECT inside the Python value (`PVal.undef`): nothing fails until it is printed
+(`repr`) or found by the wrapper's search.  Dict literals of the fragment have distinct keys
+(the driver refuses others: Python keeps the last value of a repeated key).
 
 Jinja itself (lexer/parser/evaluator on this fragment) is modelled, not verified: the tie of
 C16 compares `render` with the real environments on every generated case.  Core Lean only.
@@ -16,10 +26,11 @@ import Rpft.Cell
 namespace Rpft.Template
 open Rpft Rpft.Cell
 
-/-- what an undefined reference does: `strict` = `jinja2.StrictUndefined`, `lenient` =
-`jinja2.Undefined` (the default) -/
+/-- what an undefined reference does: `strict` = the repo's `StrictUndefined` subclass (`str()`
+AND `repr()` raise), `strictShallow` = `jinja2.StrictUndefined` (`str()` raises, `repr()` is
+`'Undefined'`), `lenient` = `jinja2.Undefined` (the default) -/
 inductive Policy where
-  | strict | lenient
+  | strict | strictShallow | lenient
   deriving DecidableEq, Repr
 
 /-- context values: strings, lists, records (dicts / row models) -/
@@ -123,6 +134,160 @@ def Val.items : Val → List Val
   | .str s => s.map fun c => .str [c]
   | .record fs => fs.map fun kv => .str kv.1
 
+
+inductive Err where
+  | undefined (p : Path)     -- jinja2.UndefinedError
+  | filterType (p : Path)    -- `|escape` applied to a non-string (AttributeError: no `replace`)
+  | nestedNative             -- 'Cell may not contain nested "{@" templates.'
+  deriving DecidableEq, Repr
+
+deriving instance DecidableEq for Except
+
+/-! ### expressions: references inside list / tuple / dict literals -/
+
+inductive CKind where
+  | list | tuple | dict | dictCall
+  deriving DecidableEq, Repr
+
+/-- expressions of the fragment.  `coll k items`: `[e, …]`, `(e, …)`, `{'k': e, …}`,
+`dict(k=e, …)`; the keys are used by the two dict forms only. -/
+inductive Expr where
+  | ref (p : Path)
+  | dflt (x : Str) (d : Str)                        -- `x|default('d')` (a bare name)
+  | coll (k : CKind) (items : List (Str × Expr))
+  deriving Repr
+
+/-- Python values an expression evaluates to: a context value, an `Undefined` OBJECT (made,
+not yet used), or a fresh container of such -/
+inductive PVal where
+  | val (v : Val)
+  | undef (p : Path)
+  | coll (k : CKind) (items : List (Str × PVal))
+  deriving Repr
+
+/-- the Python type a literal builds (`dict(…)` builds a dict) -/
+def CKind.norm : CKind → CKind
+  | .dictCall => .dict
+  | k => k
+
+mutual
+/-- evaluation of an expression: nothing fails here except a step taken ON an undefined object
+(`nope.x`); an undefined name is an object, the `default` filter replaces exactly that object -/
+def evalE (ctx : Ctx) : Expr → Except Err PVal
+  | .ref p =>
+    match resolve ctx p with
+    | .val v => .ok (.val v)
+    | .undef => .ok (.undef p)
+    | .broken => .error (.undefined p)
+  | .dflt x d =>
+    match ctx.lookup x with
+    | some v => .ok (.val v)
+    | none => .ok (.val (.str d))
+  | .coll k items =>
+    match evalItems ctx items with
+    | .ok pvs => .ok (.coll k.norm pvs)
+    | .error x => .error x
+def evalItems (ctx : Ctx) : List (Str × Expr) → Except Err (List (Str × PVal))
+  | [] => .ok []
+  | (k, e) :: rest =>
+    match evalE ctx e with
+    | .error x => .error x
+    | .ok pv =>
+      match evalItems ctx rest with
+      | .error x => .error x
+      | .ok pvs => .ok ((k, pv) :: pvs)
+end
+
+def sepStr : Str := ", ".toList
+/-- `repr()` of Jinja's `Undefined` / `StrictUndefined` -/
+def undefinedWord : Str := "Undefined".toList
+
+/-- one element of a printed container -/
+def itemRepr (k : CKind) (key body : Str) : Str :=
+  match k with
+  | .dict | .dictCall => '\'' :: key ++ "': ".toList ++ body
+  | _ => body
+
+/-- brackets of a printed container (a one-element tuple has its comma) -/
+def wrapRepr (k : CKind) (n : Nat) (body : Str) : Str :=
+  match k with
+  | .list => '[' :: body ++ [']']
+  | .tuple => if n = 1 then '(' :: body ++ ",)".toList else '(' :: body ++ [')']
+  | _ => '{' :: body ++ ['}']
+
+mutual
+/-- `repr(value)` under a policy: the `Undefined` object inside a container raises (`strict`)
+or prints as the word `Undefined` (`strictShallow`, `lenient`) -/
+def PVal.repr (pol : Policy) : PVal → Except Err Str
+  | .val v => .ok v.repr
+  | .undef p => if pol = .strict then .error (.undefined p) else .ok undefinedWord
+  | .coll k items =>
+    match reprItems pol k items with
+    | .ok s => .ok (wrapRepr k items.length s)
+    | .error x => .error x
+def reprItems (pol : Policy) (k : CKind) : List (Str × PVal) → Except Err Str
+  | [] => .ok []
+  | (key, pv) :: rest =>
+    match PVal.repr pol pv with
+    | .error x => .error x
+    | .ok s =>
+      match reprItems pol k rest with
+      | .error x => .error x
+      | .ok r => .ok (itemRepr k key s ++ (if rest.isEmpty then [] else sepStr ++ r))
+end
+
+mutual
+/-- the same print without a policy (the word `Undefined` for the object) -/
+def PVal.reprL : PVal → Str
+  | .val v => v.repr
+  | .undef _ => undefinedWord
+  | .coll k items => wrapRepr k items.length (reprItemsL k items)
+def reprItemsL (k : CKind) : List (Str × PVal) → Str
+  | [] => []
+  | (key, pv) :: rest => itemRepr k key pv.reprL ++ (if rest.isEmpty then [] else sepStr ++ reprItemsL k rest)
+end
+
+/-- `str(value)`: what `{{ e }}` prints, what `~` concatenates -/
+def PVal.str (pol : Policy) : PVal → Except Err Str
+  | .val v => .ok v.show
+  | .undef p => if pol = .lenient then .ok [] else .error (.undefined p)
+  | pv => pv.repr pol
+
+def PVal.strL : PVal → Str
+  | .val v => v.show
+  | .undef _ => []
+  | pv => pv.reprL
+
+mutual
+/-- the wrapper's search of a native result: the first `Undefined` object, through nested
+lists / tuples / dict values -/
+def PVal.findUndef : PVal → Option Path
+  | .val _ => none
+  | .undef p => some p
+  | .coll _ items => findUndefItems items
+def findUndefItems : List (Str × PVal) → Option Path
+  | [] => none
+  | (_, pv) :: rest =>
+    match pv.findUndef with
+    | some p => some p
+    | none => findUndefItems rest
+end
+
+/-- the search before the fix of F-C16-c: the result itself only -/
+def PVal.topUndef : PVal → Option Path
+  | .undef p => some p
+  | _ => none
+
+/-- `p` is written in `e` in a position whose value is kept (not consumed by `default`) -/
+inductive Stored : Expr → Path → Prop where
+  | ref {p} : Stored (.ref p) p
+  | coll {k items kv p} : kv ∈ items → Stored kv.2 p → Stored (.coll k items) p
+
+/-- the value holds the `Undefined` object made for `p` -/
+inductive PVal.Holds : PVal → Path → Prop where
+  | undef {p} : PVal.Holds (.undef p) p
+  | coll {k items kv p} : kv ∈ items → PVal.Holds kv.2 p → PVal.Holds (.coll k items) p
+
 /-! ### templates -/
 
 /-- text templates (`Environment`, delimiters `{{ }}` / `{% %}`) -/
@@ -133,6 +298,7 @@ inductive Tmpl where
   | seq (a b : Tmpl)
   | forJoin (v : Str) (p : Path) (body : Tmpl)   -- `{% for v in p %}body{% endfor %}`
   | ifEq (p : Path) (c : Str) (body : Tmpl)      -- `{% if p == 'c' %}body{% endif %}`
+  | expr (e : Expr) (cat : Option Expr)          -- `{{ e }}` / `{{ e ~ f }}`
   deriving Repr
 
 /-- a cell as Jinja reads it in the environment the wrapper selects -/
@@ -140,21 +306,16 @@ inductive Src where
   | text (t : Tmpl)
   | nat (padL : Str) (p : Path) (padR : Str)     -- `{@ p @}`: returns the VALUE
   | nat2 (p q : Path)                            -- `{@p@}{@q@}`: rejected by the wrapper
+  | natE (padL : Str) (e : Expr) (padR : Str)    -- `{@ e @}`: returns the Python value
   deriving Repr
-
-inductive Err where
-  | undefined (p : Path)     -- jinja2.UndefinedError
-  | filterType (p : Path)    -- `|escape` applied to a non-string (AttributeError: no `replace`)
-  | nestedNative             -- 'Cell may not contain nested "{@" templates.'
-  deriving DecidableEq, Repr
-
-deriving instance DecidableEq for Except
 
 /-- what the caller gets: text, a native Python value, or — silently — an `Undefined` object -/
 inductive Out where
   | text (s : Str)
   | value (v : Val)
   | undefinedObject
+  | pvalue (v : PVal)          -- a native value built by the template (no `Undefined` inside)
+  | holdsUndefined             -- silently: a container with an `Undefined` object inside
   deriving Repr
 
 /-- `"".join(f(e) for e in xs)`, stopping at the first error -/
@@ -199,18 +360,51 @@ def renderT (pol : Policy) : Ctx → Tmpl → Except Err Str
     | .val _, _ => .ok []
     | .undef, .lenient => .ok []            -- `Undefined == 'c'` is False
     | _, _ => .error (.undefined p)
+  | ctx, .expr e none =>
+    match evalE ctx e with
+    | .error x => .error x
+    | .ok pv => pv.str pol
+  | ctx, .expr e (some f) =>
+    -- both operands are evaluated, then `str()` of each, left to right
+    match evalE ctx e with
+    | .error x => .error x
+    | .ok a =>
+      match evalE ctx f with
+      | .error x => .error x
+      | .ok b =>
+        match a.str pol with
+        | .error x => .error x
+        | .ok x =>
+          match b.str pol with
+          | .error y => .error y
+          | .ok y => .ok (x ++ y)
 
-/-- the three ingredients of the repo's configuration (T1: `Gen.jinjaPolicy`,
+/-- the ingredients of the repo's configuration (T1: `Gen.jinjaPolicy`,
 `Gen.jinjaNativePolicy`, `Gen.nativeUndefinedCheck`) -/
 structure Conf where
   textPol : Policy
   natPol : Policy
   natCheck : Bool
+  /-- the check of the native result looks inside lists / tuples / dicts
+  (T1: `Gen.nativeUndefinedDeepCheck`) -/
+  natDeep : Bool
   deriving DecidableEq, Repr
 
-def Conf.repo : Conf := ⟨.strict, .strict, true⟩
-/-- the configuration before the fix (Jinja defaults, no check) -/
-def Conf.defaults : Conf := ⟨.lenient, .lenient, false⟩
+def Conf.repo : Conf := ⟨.strict, .strict, true, true⟩
+/-- the configuration before the fix of F-C16-c (plain `StrictUndefined`, top-level check) -/
+def Conf.shallow : Conf := ⟨.strictShallow, .strictShallow, true, false⟩
+/-- the configuration before the fix of F-C16-a (Jinja defaults, no check) -/
+def Conf.defaults : Conf := ⟨.lenient, .lenient, false, false⟩
+
+/-- what the wrapper's check of a native result finds -/
+def Conf.search (cf : Conf) (pv : PVal) : Option Path :=
+  if cf.natCheck then (if cf.natDeep then pv.findUndef else pv.topUndef) else none
+
+/-- a native result as the caller sees it -/
+def PVal.out (pv : PVal) : Out :=
+  match pv with
+  | .undef _ => .undefinedObject
+  | _ => if pv.findUndef.isSome then .holdsUndefined else .pvalue pv
 
 /-- `env.from_string(stripped).render(context)` followed by the
 `isinstance(result, Undefined)` check of `parse_as_string`. -/
@@ -225,12 +419,31 @@ def renderSrc (cf : Conf) (ctx : Ctx) : Src → Except Err Out
     | .undef =>
       -- the native environment hands back the undefined object itself; only
       -- `str(StrictUndefined)` raises
-      if cf.natPol = .strict ∧ cf.natCheck = true then .error (.undefined p)
+      if cf.natPol ≠ .lenient ∧ cf.natCheck = true then .error (.undefined p)
       else .ok .undefinedObject
     | .broken => .error (.undefined p)
   | .nat2 _ _ => .error .nestedNative
+  | .natE _ e _ =>
+    match evalE ctx e with
+    | .error x => .error x
+    | .ok pv =>
+      match cf.search pv with
+      | some p =>
+        -- `str(undefined)`: raises unless the environment is lenient
+        if cf.natPol = .lenient then .ok pv.out else .error (.undefined p)
+      | none => .ok pv.out
 
 /-! ### references -/
+
+mutual
+def Expr.refs : Expr → List Path
+  | .ref p => [p]
+  | .dflt x _ => [⟨x, []⟩]
+  | .coll _ items => itemsRefs items
+def itemsRefs : List (Str × Expr) → List Path
+  | [] => []
+  | (_, e) :: rest => e.refs ++ itemsRefs rest
+end
 
 /-- every reference written in the template -/
 def refs : Tmpl → List Path
@@ -240,15 +453,18 @@ def refs : Tmpl → List Path
   | .seq a b => refs a ++ refs b
   | .forJoin _ p body => p :: refs body
   | .ifEq p _ body => p :: refs body
+  | .expr e none => e.refs
+  | .expr e (some f) => e.refs ++ f.refs
 
 def Src.refs : Src → List Path
   | .text t => Template.refs t
   | .nat _ p _ => [p]
   | .nat2 p q => [p, q]
+  | .natE _ e _ => e.refs
 
 /-- how a reference is used -/
 inductive Use where
-  | print | esc | iter | cmp
+  | print | esc | iter | cmp | store
   deriving DecidableEq, Repr
 
 /-- `Reached ctx t c p k`: evaluating `t` in `ctx` evaluates the reference `p` in the
@@ -267,6 +483,8 @@ inductive Reached : Ctx → Tmpl → Ctx → Path → Use → Prop where
   | ifBody {ctx p s body c q k} :
       resolve ctx p = .val (.str s) → Reached ctx body c q k →
       Reached ctx (.ifEq p s body) c q k
+  | exprL {ctx e f p} : Stored e p → Reached ctx (.expr e f) ctx p .store
+  | exprR {ctx e f p} : Stored f p → Reached ctx (.expr e (some f)) ctx p .store
 
 /-- the reference can be used this way: it is defined, and `|escape` gets a string -/
 def Usable (c : Ctx) (p : Path) (k : Use) : Prop :=
@@ -292,6 +510,14 @@ def subst : Ctx → Tmpl → Str
     match resolve ctx p with
     | .val (.str s) => if s = c then subst ctx body else []
     | _ => []
+  | ctx, .expr e none =>
+    match evalE ctx e with
+    | .ok pv => pv.strL
+    | _ => []
+  | ctx, .expr e (some f) =>
+    match evalE ctx e, evalE ctx f with
+    | .ok a, .ok b => a.strL ++ b.strL
+    | _, _ => []
 
 /-! ### concrete syntax (what the generators write into the cell) -/
 
@@ -313,6 +539,27 @@ def Seg.show : Seg → Str
 
 def Path.show (p : Path) : Str := p.root ++ p.segs.flatMap Seg.show
 
+def defaultFilter : Str := "default".toList
+
+mutual
+def Expr.show : Expr → Str
+  | .ref p => p.show
+  | .dflt x d => x ++ '|' :: defaultFilter ++ "('".toList ++ d ++ "')".toList
+  | .coll .list items => '[' :: itemsShow .list items ++ [']']
+  | .coll .tuple items =>
+    if items.length = 1 then '(' :: itemsShow .tuple items ++ ",)".toList
+    else '(' :: itemsShow .tuple items ++ [')']
+  | .coll .dict items => '{' :: itemsShow .dict items ++ ['}']
+  | .coll .dictCall items => "dict(".toList ++ itemsShow .dictCall items ++ [')']
+def itemsShow (k : CKind) : List (Str × Expr) → Str
+  | [] => []
+  | (key, e) :: rest =>
+    (match k with
+      | .dict => '\'' :: key ++ "': ".toList ++ e.show
+      | .dictCall => key ++ '=' :: e.show
+      | _ => e.show) ++ (if rest.isEmpty then [] else sepStr ++ itemsShow k rest)
+end
+
 def Tmpl.show : Tmpl → Str
   | .lit s => s
   | .var p => varStart ++ p.show ++ varEnd
@@ -324,11 +571,14 @@ def Tmpl.show : Tmpl → Str
   | .ifEq p c body =>
     blockStart ++ " if ".toList ++ p.show ++ " == '".toList ++ c ++ "' ".toList ++ blockEnd ++ body.show ++
       blockStart ++ " endif ".toList ++ blockEnd
+  | .expr e none => varStart ++ ' ' :: e.show ++ ' ' :: varEnd
+  | .expr e (some f) => varStart ++ ' ' :: e.show ++ " ~ ".toList ++ f.show ++ ' ' :: varEnd
 
 def Src.show : Src → Str
   | .text t => t.show
   | .nat l p r => natStart ++ l ++ p.show ++ r ++ natEnd
   | .nat2 p q => natStart ++ p.show ++ natEnd ++ natStart ++ q.show ++ natEnd
+  | .natE l e r => natStart ++ l ++ e.show ++ r ++ natEnd
 
 /-! ### the wrapper: `parse_as_string` and `parse` -/
 
@@ -360,6 +610,8 @@ inductive Parsed where
   | cell (c : Cell)
   | value (v : Val)
   | undefinedObject
+  | pvalue (v : PVal)
+  | holdsUndefined
   deriving Repr
 
 /-- `parse(value, context)`: text results go through `split_into_lists`, native objects are
@@ -370,6 +622,8 @@ def parse (cf : Conf) (ctx? : Option Ctx) (value : Str) (ast : Src) : Except Err
   | .ok (.text s) => .ok (.cell (splitIntoLists pyWs s))
   | .ok (.value v) => .ok (.value v)
   | .ok .undefinedObject => .ok .undefinedObject
+  | .ok (.pvalue v) => .ok (.pvalue v)
+  | .ok .holdsUndefined => .ok .holdsUndefined
 
 /-! ### rows: `SheetParser.parse_next_row(omit_templating)` -/
 
